@@ -57,6 +57,17 @@ def matrix(tier, rnd):
                 [P.DO("api", kind="println", n=100), P.DO("api", kind="printf", n=30), P.DO("api", kind="send", n=20), P.W("api")]
             m["point"] = "update:many-callers"
             add((sc, m))
+    # a second signal arrives while the program is already on its way out (the event loop has returned and the final View
+    # is being computed): the signal handler's Send has no receiver any more; shutdown must not wait for it for ever
+    for s1, s2 in (("term", "term"), ("term", "int"), ("term", "term")):
+        script = [P.W("started"), P.W("idle"), P.DO("api", kind="wait", n=2), P.DO("signal", sig=s1), P.W("pause:view:2"),
+                  P.DO("signal", sig=s2), P.DO("sleep", us=60000), P.DO("api", kind="send", n=2), P.DO("api", kind="println", n=1),
+                  P.DO("release", label="view:2", all=True), P.W("returned"),
+                  P.DO("api", kind="wait", n=2), P.DO("api", kind="send", n=2), P.DO("api", kind="println", n=1), P.DO("api", kind="printf", n=1),
+                  P.DO("api", kind="quit", n=1), P.W("api")]
+        sc = P.scenario(0, script, opts={"nosighandler": False}, view={"pause_at": 2}, isolate=True, watchdog_ms=5000)
+        cause = "sigint" if s1 == "int" else "sigterm"
+        add((sc, {"cause": cause, "point": "final-view:second-signal-" + s2, "pending": "none", "causes": [cause], "before_api": True, "after_api": True}))
     # the context is already cancelled when Run is called (callers before and after)
     add(P.lifecycle_scenario(0, "cancel", "before-run", "none", before_api=True, after_api=True))
     add(P.lifecycle_scenario(0, "kill", "before-run", "none", before_api=True, after_api=True))
